@@ -1762,6 +1762,231 @@ def sec_hist(ctx, full):
 
 
 # ------------------------------------------------------------------------------------------
+# power spaces: memory layout of the parts.  A ProductSpaceElement is a list of part elements;
+# where their arrays live (separate arrays, rows of one array in order, rows in another order,
+# columns, the same object twice, rows of a larger array) must not matter: the element *is* the
+# stack of its parts taken one by one.
+
+PART_LAYOUTS = ['separate', 'rows', 'rev-slice', 'perm-index', 'rev-element', 'twice',
+                'bigger', 'columns']
+
+
+def _stack(x):
+    """The array of an element assembled from its parts one by one (never x.asarray())."""
+    if isinstance(x, ProductSpaceElement):
+        return np.stack([_stack(p) for p in x.parts])
+    return np.array(x.asarray(), copy=True)
+
+
+def build_parts(ctx, layout, which, prefilled=False):
+    """(element, expected array, arrays to keep alive) for a part layout; None if the layout
+    does not exist for the kind."""
+    sp, n = ctx.space, ctx.shape[0]
+    # an array that owns its memory (fill() hands out reshaped views of a flat array)
+    B = (prefill(ctx.dt, ctx.shape) if prefilled else fill(ctx.dt, ctx.shape, which)).copy()
+    perm = list(range(n))[::-1] if n == 2 else list(range(1, n)) + [0]
+    if layout == 'separate':
+        return sp.element([sp[0].element(B[i].copy()) for i in range(n)]), B.copy(), [B]
+    x = sp.element(B)
+    if layout == 'rows':
+        return x, B.copy(), [B]
+    if layout == 'rev-slice':
+        return x[::-1], B[::-1].copy(), [B, x]
+    if layout == 'perm-index':
+        return x[perm], B[perm].copy(), [B, x]
+    if layout == 'rev-element':
+        return sp.element([x[i] for i in reversed(range(n))]), B[::-1].copy(), [B, x]
+    if layout == 'twice':
+        idx = list(range(n - 1)) + [0]
+        return sp.element([x[i] for i in idx]), B[idx].copy(), [B, x]
+    if layout == 'bigger':
+        other = fill(ctx.dt, ctx.shape, 'b2' if which != 'b2' else 'a1')
+        big = np.concatenate([B, other[:1]])
+        order = list(range(n, 0, -1))
+        return (sp.element([sp[0].element(big[k]) for k in order]), big[order].copy(), [big])
+    if layout == 'columns':
+        if ctx.ndim != 2:
+            return None
+        S = B.T.copy()
+        return sp.element([sp[0].element(S[:, i]) for i in range(n)]), B.copy(), [S]
+    raise KeyError(layout)
+
+
+def sec_parts(ctx, layout, full):
+    built = build_parts(ctx, layout, 'a1')
+    if built is None:
+        ctx.skipped += 1
+        return
+    xp, E, keep = built
+    tags = ['parts=' + layout]
+    sp = xp.space
+    Eb = fill(ctx.dt, ctx.shape, 'b1')
+    sc = SCALAR[ctx.dt]
+    where = 'x built with parts layout %r from %s in %s' % (layout, _short(E), _sprepr(sp))
+
+    def bad(cls, method, sym, text):
+        ctx.fail(method, tags, sym, '%s: %s' % (text, where), cls=cls)
+
+    def same(cls, method, what, got, want):
+        ctx.evals += 1
+        if not _bits_equal(got, want):
+            bad(cls, method, 'values_differ', '%s = %s, expected %s'
+                % (what, _short(np.asarray(got)), _short(want)))
+            return False
+        return True
+
+    def guarded(cls, method, what, f):
+        try:
+            return True, f()
+        except Exception as e:
+            ctx.evals += 1
+            bad(cls, method, 'raises:' + type(e).__name__, '%s raises %r' % (what, e))
+            return False, None
+
+    PE, PU = 'ProductSpaceElement', 'ProductSpaceUfuncs'
+    # --- the element is the stack of its parts; asarray and the round trip reproduce them
+    same(PE, 'parts', 'stack of the parts', _stack(xp), E)
+    ok, A = guarded(PE, 'asarray', 'x.asarray()', lambda: xp.asarray())
+    if ok:
+        same(PE, 'asarray', 'x.asarray()', A, E)
+        # (whether the returned array may alias the parts is not documented -> not judged)
+    xp, E, keep = build_parts(ctx, layout, 'a1')
+    ok, A = guarded(PE, 'asarray', 'np.asarray(x)', lambda: np.asarray(xp))
+    if ok:
+        same(PE, 'asarray', 'np.asarray(x)', A, E)
+    o = prefill(ctx.dt, ctx.shape)
+    ok, r = guarded(PE, 'asarray', 'x.asarray(out=o)', lambda: xp.asarray(out=o))
+    if ok:
+        same(PE, 'asarray', 'x.asarray(out=o)', o, E)
+    ok, xr = guarded(PE, 'asarray', 'space.element(x.asarray())',
+                     lambda: sp.element(xp.asarray()))
+    if ok:
+        same(PE, 'asarray', 'parts of space.element(x.asarray())', _stack(xr), E)
+        ctx.evals += 1
+        if not (xr == xp):
+            bad(PE, 'asarray', 'asarray_roundtrip', 'space.element(x.asarray()) == x is False')
+    ctx.sigs.add('parts>' + layout)
+
+    y = sp.element(Eb.copy())
+
+    def wrapped(cls, method, what, res, ref):
+        """A fresh result: power-space element whose parts hold NumPy's numbers."""
+        ctx.evals += 1
+        if ref.dtype != E.dtype:
+            # dtype-changing results of power-space elements: the known __array_wrap__
+            # findings, judged in the call section
+            ctx.evals -= 1
+            ctx.inappl += 1
+            return
+        if np.ndim(ref) == 0:
+            for sym, t in check_scalar(res, ref):
+                bad(cls, method, sym, '%s: %s' % (what, t))
+            return
+        if not isinstance(res, ProductSpaceElement):
+            bad(cls, method, 'result_kind_differs', '%s gives %s' % (what, _short(res)))
+            return
+        got = _stack(res)
+        if not _bits_equal(got, ref):
+            bad(cls, method, 'values_differ', '%s gives parts %s, NumPy on the stacked parts '
+                'gives %s' % (what, _short(got), _short(ref)))
+
+    def np_case(method, what, f_odl, f_ref):
+        try:
+            ref = f_ref()
+        except Exception:
+            ctx.inappl += 1
+            return
+        ok, res = guarded(PE, method, what, f_odl)
+        if ok:
+            wrapped(PE, method, what, res, ref)
+
+    # --- NumPy calls (dtype preserving ufuncs)
+    for name in ('negative', 'conjugate', 'square'):
+        u = UF[name]
+        np_case('np.__call__', 'np.%s(x)' % name, lambda: u(xp), lambda: u(E))
+    for name in ('subtract', 'maximum', 'multiply'):
+        u = UF[name]
+        np_case('np.__call__', 'np.%s(x, y)' % name, lambda: u(xp, y), lambda: u(E, Eb))
+        np_case('np.__call__', 'np.%s(y, x)' % name, lambda: u(y, xp), lambda: u(Eb, E))
+        np_case('np.__call__', 'np.%s(x, arr)' % name, lambda: u(xp, Eb.copy()),
+                lambda: u(E, Eb))
+        np_case('np.__call__', 'np.%s(arr, x)' % name, lambda: u(Eb.copy(), xp),
+                lambda: u(Eb, E))
+        np_case('np.__call__', 'np.%s(x, %r)' % (name, sc), lambda: u(xp, sc),
+                lambda: u(E, sc))
+        np_case('np.__call__', 'np.%s(x, x)' % name, lambda: u(xp, xp), lambda: u(E, E))
+        # out given as ndarray
+        try:
+            ro = prefill(ctx.dt, ctx.shape)
+            u(E, Eb, out=ro)
+        except Exception:
+            ctx.inappl += 1
+        else:
+            oo = prefill(ctx.dt, ctx.shape)
+            ok, res = guarded(PE, 'np.__call__', 'np.%s(x, y, out=arr)' % name,
+                              lambda: u(xp, y, out=oo))
+            if ok:
+                same(PE, 'np.__call__', 'np.%s(x, y, out=arr)' % name, oo, ro)
+        np_case('np.accumulate', 'np.%s.accumulate(x)' % name,
+                lambda: u.accumulate(xp), lambda: u.accumulate(E))
+        np_case('np.reduce', 'np.%s.reduce(x, axis=None)' % name,
+                lambda: u.reduce(xp, axis=None), lambda: u.reduce(E, axis=None))
+    for fname in ('sum', 'min', 'max'):
+        fn = getattr(np, fname)
+        np_case('np.reduce', 'np.%s(x)' % fname, lambda: fn(xp), lambda: fn(E))
+    same(PE, 'parts', 'stack of the parts after the calls (operands untouched)', _stack(xp), E)
+
+    # --- legacy namespace: agrees with NumPy on the stacked parts
+    def leg_case(what, f_odl, f_ref):
+        try:
+            ref = f_ref()
+        except Exception:
+            ctx.inappl += 1
+            return
+        ok, res = guarded(PU, 'ufuncs', what, f_odl)
+        if ok:
+            wrapped(PU, 'ufuncs', what, res, ref)
+
+    for name, lname in (('negative', 'negative'), ('conjugate', 'conj'), ('square', 'square')):
+        u = UF[name]
+        leg_case('x.ufuncs.%s()' % lname, lambda: getattr(xp.ufuncs, lname)(), lambda: u(E))
+        # out: an element in row order, and an element with this very parts layout
+        try:
+            ref = u(Eb)
+        except Exception:
+            ctx.inappl += 1
+            continue
+        if ref.dtype != E.dtype:
+            continue
+        for oname, ob in (('rows', build_parts(ctx, 'rows', 'a1', True)),
+                          (layout, build_parts(ctx, layout, 'a1', True))):
+            oel = ob[0]
+            if layout == 'twice' and oname == 'twice':
+                continue        # an out whose parts overlap has no defined content
+            what = 'y.ufuncs.%s(out=<element with parts layout %r>)' % (lname, oname)
+            ok, res = guarded(PU, 'ufuncs', what, lambda: getattr(y.ufuncs, lname)(out=oel))
+            if ok:
+                ctx.evals += 1
+                if res is not oel:
+                    bad(PU, 'ufuncs', 'out_not_returned', what)
+                same(PU, 'ufuncs', 'parts of out after ' + what, _stack(oel), ref)
+    for name in ('subtract', 'maximum', 'multiply'):
+        u = UF[name]
+        leg_case('x.ufuncs.%s(y)' % name, lambda: getattr(xp.ufuncs, name)(y),
+                 lambda: u(E, Eb))
+        leg_case('y.ufuncs.%s(x)' % name, lambda: getattr(y.ufuncs, name)(xp),
+                 lambda: u(Eb, E))
+        leg_case('x.ufuncs.%s(%r)' % (name, sc), lambda: getattr(xp.ufuncs, name)(sc),
+                 lambda: u(E, sc))
+        leg_case('x.ufuncs.%s(x)' % name, lambda: getattr(xp.ufuncs, name)(xp),
+                 lambda: u(E, E))
+    for red, fn in (('sum', np.sum), ('prod', np.prod), ('min', np.min), ('max', np.max)):
+        leg_case('x.ufuncs.%s()' % red, lambda: getattr(xp.ufuncs, red)(), lambda: fn(E))
+    same(PE, 'parts', 'stack of the parts after the legacy calls', _stack(xp), E)
+    del keep
+
+
+# ------------------------------------------------------------------------------------------
 # base-class Tensor.__array_ufunc__ (what a non-NumPy back-end inherits): "casts inputs and
 # outputs to Numpy arrays and evaluates ``ufunc`` on those ... If no ``out`` parameter is
 # provided, this implementation just returns the raw array"
@@ -1917,6 +2142,12 @@ def configs(tier):
     for k, dt in kd:
         if KINDS[k][0] != 'power':
             cfgs.append({'sec': 'hist', 'kind': k, 'dtype': dt, 'full': fl})
+    kd_parts = [(k, dt) for k, dt in kd if KINDS[k][0] == 'power']
+    if tier == 'quick':
+        kd_parts += [('p3t2w', 'float64'), ('p2p2t3', 'float64')]
+    for k, dt in kd_parts:
+        for lay in PART_LAYOUTS:
+            cfgs.append({'sec': 'parts', 'kind': k, 'dtype': dt, 'layout': lay, 'full': fl})
     for k, dt in kd:
         if KINDS[k][0] == 'tensor' and (tier == 'thorough' or k in ('t3', 't23')):
             for m in ['__call__', 'reduce', 'accumulate', 'outer', 'at', 'reduceat']:
@@ -1938,6 +2169,8 @@ def run(cfg):
             sec_wrap(ctx, full)
         elif sec == 'hist':
             sec_hist(ctx, full)
+        elif sec == 'parts':
+            sec_parts(ctx, cfg['layout'], full)
         elif sec == 'base':
             sec_base(ctx, cfg['method'], full)
         else:
@@ -1996,6 +2229,7 @@ def meta(tier):
                     'tuples',
             'dtype keyword': DTYPE_KW,
             'legacy names': len(OU.UFUNCS) + 4,
+            'power-space part layouts': PART_LAYOUTS,
         },
         'assumptions': [
             'the reference model is NumPy itself applied to plain copies of the same arrays: a '
